@@ -12,7 +12,8 @@ LEVEL = "model_checking"
 RULE = (
     "configurations: S1 (two sequential tasks), S2 (parallel then task), S5b (over-committed parallel: several rows per step on one worker), "
     "S9 (three tasks stacked on one client, each ending exactly on a worker wake-up), S10 (8 s service times so that the driver's 30 s periodic "
-    "post-processing fires inside a task), S11 (composite operation with two named dependent sub-requests) x layouts {1x1, 1x2, 2x1} x "
+    "post-processing fires inside a task), S11 (composite operation with two named dependent sub-requests), S12 (the last task ends exactly on a "
+    "worker wake-up), S13 (completed-by with a sibling request in flight) x layouts {1x1, 1x2, 2x1} x "
     "downsampling {1, 2} x sample queue {default, 2}; schedules: every sequence of message deliveries, wake-ups, thread steps, time advances "
     "and handler preemptions within the deviation bound. non-trivial = execution with at least one deviation; distinct = (configuration, choices)"
 )
@@ -52,13 +53,18 @@ SHAPES = {
     "S9": lambda: [P([T("a", 1, it=10), T("b", 1, it=10), T("c", 1, it=2)], clients=1), T("d", 1, it=1)],
     "S10": lambda: [T("a", 1, it=5), T("b", 1, it=1)],
     "S11": lambda: [composite_task(), T("b", 1, it=1)],
+    # the last task of the race ends exactly on a worker wake-up: the final join point races with the last sample shipment
+    "S12": lambda: [T("a", 1, it=10)],
+    # completed-by: the sibling has a request in flight when the named task finishes
+    "S13": lambda: [P([loadgen.make_task("a", "a", clients=1, iterations=3, completes_parent=True),
+                       loadgen.make_task("b", "b", clients=1, time_period=100_000, warmup_time_period=0)]), T("c", 2, it=1)],
 }
 LAYOUTS = {"1x1": (["localhost"], 1), "1x2": (["localhost"], 2), "2x1": (["localhost", "h2"], 1)}
 
 
 def behaviour_for(shape):
     def behaviour(entry):
-        st = 8.0 if shape == "S10" and "/verif/a/" in entry["target"] else 0.5
+        st = 8.0 if shape == "S10" and "/verif/a/" in entry["target"] else (0.75 if shape == "S13" and "/verif/b/" in entry["target"] else 0.5)
         return {"service_time": st, "body": {}}
 
     return behaviour
@@ -68,7 +74,9 @@ def configs(tier):
     out = []
     for shape in SHAPES:
         for lname in LAYOUTS:
-            if shape in ("S9", "S10", "S11") and lname != "1x1" and tier == "quick":
+            if shape in ("S9", "S10", "S11", "S12") and lname != "1x1" and tier == "quick":
+                continue
+            if shape == "S13" and lname == "1x1":
                 continue
             for factor, qsize in ((1, None), (2, None), (1, 2)):
                 if (factor, qsize) != (1, None) and lname != "1x1":
@@ -193,9 +201,9 @@ def differential(res):
 def run(tier, seed):
     cfgs = configs(tier)
     res = explore.explore_parallel(check_race, cfgs, 1, seed=seed)
-    deep = [c for c in cfgs if c[0] == "S9" and c[2] == 1 and c[3] is None and c[1] == "1x1"]
+    deep = [c for c in cfgs if c[0] in ("S9", "S12") and c[2] == 1 and c[3] is None and c[1] == "1x1"]
     if tier == "thorough":
-        deep = [c for c in cfgs if c[0] in ("S9", "S5b", "S2") and c[2] == 1 and c[3] is None]
+        deep = [c for c in cfgs if c[0] in ("S9", "S12", "S13", "S5b", "S2") and c[2] == 1 and c[3] is None]
     r2 = explore.explore_parallel(check_race, deep, 2, seed=seed, max_exec_per_subtree=150 if tier == "quick" else 40000)
     res.merge(r2)
     differential(res)
